@@ -71,6 +71,14 @@ def load(symbolic):
     g.OptimizationResult = g.graph_mod.OptimizationResult
     g.symbolic = symbolic
     g._saved = {name: {a: getattr(mod, a) for a in ("lil_matrix", "spsolve", "time") if hasattr(mod, a)} for name, mod in mods.items()}
+    # module-level float arrays (work buffers, constant matrices created at import time with the real numpy)
+    import numpy as _numpy
+
+    g._module_arrays = {}
+    for name, mod in mods.items():
+        for a, v in list(vars(mod).items()):
+            if isinstance(v, _numpy.ndarray) and v.dtype.kind == "f":
+                g._module_arrays[(name, a)] = v.copy()
     if symbolic:
         from .npproxy import NP
         from .scalars import TWO_PI
@@ -104,6 +112,9 @@ def reset_stubs(g):
     if g.symbolic:
         from .scalars import CTX, TWO_PI
 
+        # module-level float arrays become fresh object arrays (so that engine scalars can be stored in them) every case
+        for (name, a), orig in g._module_arrays.items():
+            setattr(g.mods[name], a, orig.astype(object))
         CTX.fp_mode = False
         if hasattr(g.util, "TWO_PI"):
             g.util.TWO_PI = TWO_PI
